@@ -149,7 +149,8 @@ type retSummary struct {
 	heldTrue                 []Lock
 	nTrue, nFalse, boolOther int
 	falseHolds               bool
-	unlocker                 map[int]Lock // result #i is a bound Unlock/RUnlock of this lock
+	unlocker                 map[int]Lock    // result #i is a bound Unlock/RUnlock of this lock
+	ptags                    map[string]bool // "i|kind|suffix": on every return, tag kind:<param i><suffix> was set
 	returns                  int
 }
 
@@ -490,6 +491,9 @@ func (s *retSummary) sig() string {
 	for i, l := range s.unlocker {
 		parts = append(parts, fmt.Sprintf("u%d:%s%s", i, l.Class, l.Mode))
 	}
+	for k := range s.ptags {
+		parts = append(parts, "pt:"+k)
+	}
 	sort.Strings(parts)
 	return strings.Join(parts, ";")
 }
@@ -609,6 +613,22 @@ func (r *Result) applyCall(st *state, site ssa.CallInstruction, tries map[ssa.Va
 			}
 		}
 		return false
+	}
+	// path events the helper recorded about its parameters hold for the arguments
+	if len(sm.ptags) > 0 {
+		args := site.Common().Args
+		for k := range sm.ptags {
+			parts := strings.SplitN(k, "|", 3)
+			if len(parts) != 3 {
+				continue
+			}
+			i := 0
+			fmt.Sscanf(parts[0], "%d", &i)
+			if i < len(args) {
+				ap, _ := ssax.Path(args[i])
+				st.addTag(parts[1] + ":" + ap + parts[2])
+			}
+		}
 	}
 	for _, h := range sm.held {
 		h.Key = "via:" + load.FnKey(g) + ":" + h.Class
@@ -1169,6 +1189,29 @@ func (r *Result) noteReturn(f *ssa.Function, ret *ssa.Return, st state) {
 	relNow := map[string]bool{}
 	for _, k := range st.rel {
 		relNow[k] = true
+	}
+	// tags about parameters, e.g. "registered:elem"
+	tagsNow := map[string]bool{}
+	for _, t := range st.tags {
+		i := strings.Index(t, ":")
+		if i < 0 {
+			continue
+		}
+		kind, path := t[:i], t[i+1:]
+		for pi, p := range f.Params {
+			if path == p.Name() || strings.HasPrefix(path, p.Name()+".") || strings.HasPrefix(path, p.Name()+"*") {
+				tagsNow[fmt.Sprintf("%d|%s|%s", pi, kind, path[len(p.Name()):])] = true
+			}
+		}
+	}
+	if first {
+		sm.ptags = tagsNow
+	} else {
+		for k := range sm.ptags {
+			if !tagsNow[k] {
+				delete(sm.ptags, k)
+			}
+		}
 	}
 	// a single bool result that says whether the lock is held
 	if len(ret.Results) == 1 && ret.Results[0].Type().String() == "bool" {
